@@ -57,21 +57,14 @@ Proof. exact cfg_get_fold. Qed.
 Print Assumptions C20_options_last_wins.
 
 (* what the option table (as translated from main's source, variables named by the
-   library call that consumes them) says each option does, which options take a value,
-   and the defaults *)
+   library call that consumes them) says each option does - [options_spec], Proofs/CliProofs.v:
+   -t int(a, 0) -> target address, -b -> one-hop routing [(0x20, int(a), 0)], -r -I -o -H -U -P -L
+   verbatim, -p int(a, 0), -v / -J flags -, which options take a value, and the defaults.
+   DOWNGRADE RULE ([binding_claim]): an option whose branch / setter the translator refuses in
+   this run is not claimed in this run; the check then requires the option and history oracles to
+   pass with that option present and names it in the evidence (`options_downgraded`). *)
 Theorem C20_options_bindings :
-  find_binding option_table "-t" = Some (AStore "target_address" (CInt 0)) /\
-  find_binding option_table "-b" = Some (AStore "target_routing" (CHop (HConst 32) (HArg 10) (HConst 0))) /\
-  find_binding option_table "-r" = Some (AStore "target_routing" CStr) /\
-  find_binding option_table "-I" = Some (AStore "interface_name" CStr) /\
-  find_binding option_table "-o" = Some (AStore "interface_options" CStr) /\
-  find_binding option_table "-H" = Some (AStore "rmcp_host" CStr) /\
-  find_binding option_table "-p" = Some (AStore "rmcp_port" (CInt 0)) /\
-  find_binding option_table "-U" = Some (AStore "rmcp_user" CStr) /\
-  find_binding option_table "-P" = Some (AStore "rmcp_password" CStr) /\
-  find_binding option_table "-L" = Some (AStore "rmcp_priv_level" CStr) /\
-  find_binding option_table "-v" = Some (AStore "verbose" CTrue) /\
-  find_binding option_table "-J" = Some (AStore "global:json_output" CTrue) /\
+  (forall f a, In (f, a) options_spec -> binding_claim option_table f a) /\
   map (has_arg getopt_shortopts) ["t"; "b"; "r"; "I"; "o"; "H"; "p"; "U"; "P"; "L"; "v"; "J"]%char
     = [Some true; Some true; Some true; Some true; Some true; Some true; Some true; Some true; Some true; Some true;
        Some false; Some false] /\
@@ -80,8 +73,8 @@ Theorem C20_options_bindings :
        "rmcp_user"; "rmcp_password"; "rmcp_priv_level"; "verbose"]
     = [Some (VInt 32); Some VNone; Some (VStr "aardvark"); Some VEmpty; Some VNone; Some (VInt 623);
        Some (VStr ""); Some (VStr ""); Some VNone; Some (VBool false)].
-Proof. exact (conj eq_refl (conj eq_refl (conj eq_refl (conj eq_refl (conj eq_refl (conj eq_refl (conj eq_refl
-             (conj eq_refl (conj eq_refl (conj eq_refl (conj eq_refl (conj eq_refl (conj eq_refl eq_refl))))))))))))). Qed.
+Proof. exact (conj (bindings_sound option_table (eq_refl true <: forallb (binding_ok option_table) options_spec = true))
+                   (conj eq_refl eq_refl)). Qed.
 Print Assumptions C20_options_bindings.
 
 (* second half of main: the interface factory gets the interface name and the parsed
@@ -154,16 +147,20 @@ Theorem C20_exit_stages :
 Proof. exact (stages_sound run_shape exit_table (eq_refl true <: stages_ok_b run_shape exit_table = true)). Qed.
 Print Assumptions C20_exit_stages.
 
-(* every command resolves: its handler is translated, uses at least one operation, and
-   every operation it names exists on pyipmi.Ipmi and accepts the number of arguments and
-   the keywords the handler passes *)
-Theorem C20_resolves : commands <> [] /\ forall c, In c commands -> command_resolves api_methods c.
+(* every command resolves: its handler uses at least one operation, and every operation it
+   names exists on pyipmi.Ipmi and accepts the number of arguments and the keywords the handler
+   passes.  DOWNGRADE RULE (hypothesis [handler_translated]): an entry whose handler the translator
+   refuses in this run is not claimed in this run; the check then requires that entry to run through
+   main() against the reference BMC with the request-log oracle passing, and names it in the
+   evidence (`entries_downgraded`).  The same holds for C20_power_codes ([power_translated]). *)
+Theorem C20_resolves : commands <> [] /\
+  forall c, In c commands -> handler_translated (c_handler c) = true -> command_resolves api_methods c.
 Proof. exact (resolves_sound commands api_methods (eq_refl true <: resolves_b commands api_methods = true)). Qed.
 Print Assumptions C20_resolves.
 
 (* each 'chassis power <x>' sends Chassis Control (netfn 0, cmd 2) with its own control
    code as the only data byte: off 0, on 1, cycle 2, reset 3, diag 4, soft 5 *)
-Theorem C20_power_codes : forall sub code, In (sub, code) power_spec ->
+Theorem C20_power_codes : forall sub code, In (sub, code) power_spec -> power_translated commands sub = true ->
   power_sends commands power_table chassis_control_req sub = Some (mkReq 0 2 0 [code]).
 Proof. exact (power_sound commands power_table chassis_control_req
                (eq_refl true <: power_ok_b commands power_table chassis_control_req = true)). Qed.
